@@ -156,3 +156,55 @@ def resolve_splits(e):
                 return ("idx", c[2][0], ("bin", "Add", c[2][1], n[2]))
         return None
     return rewrite(e, f)
+
+
+# --------------------------------------------------------------------------------------
+# `for (k, x) in xs.iter().enumerate().take(t).skip(s)`  ==  `for k in s..min(t, len(xs))` with x = xs[k]
+
+
+def _enum_chain(it):
+    """(X, start expr, [end exprs]) for next-receiver `it` = enumerate(iter(X)) wrapped in take / skip"""
+    one = ("c", 1, "i", None)
+    zero = ("c", 0, "i", None)
+    if it[0] == "call" and it[1].endswith("Iterator::enumerate") and len(it[2]) == 1:
+        x = it[2][0]
+        while x[0] == "call" and (x[1].endswith("::iter") or x[1].endswith("into_iter")) and len(x[2]) == 1:
+            x = x[2][0]
+        return x, zero, [("len", x)]
+    if it[0] == "call" and it[1].endswith("Iterator::take") and len(it[2]) == 2:
+        r = _enum_chain(it[2][0])
+        if r is None:
+            return None
+        x, s, ends = r
+        # take(t) after a start s keeps indices s .. s + t
+        t = it[2][1] if s == zero else ("bin", "Add", s, it[2][1])
+        return x, s, ends + [t]
+    if it[0] == "call" and it[1].endswith("Iterator::skip") and len(it[2]) == 2:
+        r = _enum_chain(it[2][0])
+        if r is None:
+            return None
+        x, s, ends = r
+        s2 = it[2][1] if s == zero else ("bin", "Add", s, it[2][1])
+        return x, s2, ends
+    return None
+
+
+def enumerate_as_range(e):
+    """rewrite the index / element of an enumerate().take().skip() loop into a range loop variable
+    and an indexed element, so that recurrence rules see `k` and `xs[k]`"""
+    def f(n):
+        # (next(CH) as Some).0.0 -> k ; (next(CH) as Some).0.1 -> X[k]
+        if n[0] == "field" and n[2] in ("0", "1") and n[1][0] == "field" and n[1][2] == "0" and n[1][1][0] == "variant" and n[1][1][2] == "Some":
+            c = n[1][1][1]
+            if c[0] == "call" and c[1].endswith("::next") and len(c[2]) == 1:
+                r = _enum_chain(c[2][0])
+                if r is not None:
+                    x, s, ends = r
+                    end = ends[0]
+                    for e2 in ends[1:]:
+                        end = ("call", "std::cmp::Ord::min", (end, e2))
+                    k = ("field", ("variant", ("call", "std::iter::range::<impl std::iter::Iterator for std::ops::Range<A>>::next",
+                                               (("agg", "std::ops::Range::Range", (s, end), ("start", "end")),)), "Some"), "0")
+                    return k if n[2] == "0" else ("idx", x, k)
+        return None
+    return rewrite(e, f)
